@@ -37,7 +37,7 @@ def run_check(tier, seed):
     ev.cov['checker_cmd'] = 'make -C coq Props/C01.vo (coqc 8.16.1, full .vo) + Print Assumptions audit'
     ev.cov['trusted_base'] = TRUSTED_COMMON + S.SERVER_TRUSTED
     ev.assumptions = ['memory safety of the unsafe blocks themselves is not modelled (canaries; ASan is a thorough-tier extra)',
-                      'C01_answer_required (every well-formed request gets exactly one reply) is checked on the implementation and through the model correspondence; its Coq proof is part of C02 (decode exactness)']
+                      'C01_answer_required / C01_answer_exactly_one_message are proved for the FuseDev transport; for virtio the reply is the bytes placed in the writable descriptors (checked on the implementation and through the model correspondence)']
     broken = []; findings = []
     audit = std_audit(ev, PROP, broken)
     ok, out, bindir = cargo_build(['codec'])
